@@ -823,6 +823,15 @@ func genC17(g *gen) {
 		items, file := cg.file(g.r.Intn(10), false, false)
 		cg.emitDec(g, 1+g.r.Intn(8), items, file)
 	}
+	// 1b. a few files with LARGE collections (thousands of tiny elements): element indices and per-element lines
+	//     far beyond any internal batch size
+	nbig := g.pick(4, 40)
+	for i := 0; i < nbig; i++ {
+		cg.maxStr, cg.maxElems = 3, []int{5000, 9000, 13000, 70000}[i%4]
+		cg.binary = i%2 == 0
+		items, file := cg.file(1+g.r.Intn(3), false, false)
+		cg.emitDec(g, 1+g.r.Intn(4), items, file)
+	}
 	// 2. many keys x every parallel 1..8 on the SAME file (schedule must not matter); big blocks at the end so
 	//    that workers finish at very different times
 	m := g.pick(3, 12)
